@@ -53,6 +53,7 @@ type Profile struct {
 	Special            func(prof *Profile, seed uint64) *RunResult
 	SpecialReplay      func(prof *Profile, rf *ReplayFile) *RunResult
 	CrossProcess       func(seed uint64) bool
+	SpecialEvery       int // 0/1: every run is special; k>1: every k-th run is special, the others are plain simulated runs
 	TraceCheck         func(prof *Profile, trace []Op) *RunResult // how a trace is judged when shrinking/replaying (default: one replay)
 }
 
@@ -812,6 +813,25 @@ func (g *genState) genSend(s *Sim) Op {
 	return op
 }
 
+// genSendOddDenom: orbiter transfers whose token is not a Noble-native denomination returning over
+// the channel it left on (C16): native to the sender, prefixed by another channel, two hops.
+func (g *genState) genSendOddDenom(s *Sim) Op {
+	r := g.r
+	op := Op{ID: g.id(), K: "send", RawDn: true, Recv: s.Env.Orbiter.String(), Class: "canon"}
+	p := &MPayload{Proto: "PROTOCOL_INTERNAL", Recipient: s.Env.Rcpt[r.Intn(NumRecipient)].Addr.String(), Passthrough: []byte{}}
+	op.Memo = p.Canonical()
+	switch r.Intn(3) {
+	case 0:
+		op.Pair, op.User, op.Denom = r.Intn(NumPairs), r.Intn(NumRemote), DenomStake
+	case 1:
+		op.Pair, op.User, op.Denom = 1, 0, voucherOnB(0, DenomUSDC)
+	default:
+		op.Pair, op.User, op.Denom = 1, 1, twoHopOnB1()
+	}
+	op.Amt = fmt.Sprint(1 + r.Intn(100000))
+	return op
+}
+
 func (g *genState) genSendOut(s *Sim) Op {
 	r := g.r
 	op := Op{ID: g.id(), K: "sendout", Class: "plain"}
@@ -1127,6 +1147,8 @@ func (g *genState) Next(s *Sim) Op {
 			return g.genSend(s)
 		case "sendout":
 			return g.genSendOut(s)
+		case "sendodd":
+			return g.genSendOddDenom(s)
 		case "byz":
 			return g.genByz(s)
 		case "deliver":
